@@ -172,9 +172,20 @@ def check_attr_defined(run, repo):
             i = c.methods.get('__init__')
             if i is None:
                 continue
-            for n in ast.walk(i.node):
-                if isinstance(n, ast.Attribute) and isinstance(n.ctx, ast.Store) and ast.unparse(n.value) == 'self':
-                    out.add(n.attr)
+            todo, seen = [i], set()
+            while todo:                       # __init__ and the self.<helper>() methods it calls (set-up split into helpers)
+                f = todo.pop()
+                if f.name in seen:
+                    continue
+                seen.add(f.name)
+                for n in ast.walk(f.node):
+                    if isinstance(n, ast.Attribute) and isinstance(n.ctx, ast.Store) and ast.unparse(n.value) == 'self':
+                        out.add(n.attr)
+                    if isinstance(n, ast.Call) and isinstance(n.func, ast.Attribute) and isinstance(n.func.value, ast.Name) \
+                            and n.func.value.id == 'self':
+                        h = ci.find_method(n.func.attr)
+                        if h is not None:
+                            todo.append(h)
         return out
 
     def members(ci):
